@@ -141,7 +141,14 @@ fn check_spec(spec: &RuleSpec, th: bool) -> Stats {
     let tp_e = entries(&pos, &neg, "p");
     let tn_e = entries(&pos, &neg, "n");
     let tps = lists(&tp_e, 2);
-    let tns = lists(&tn_e, if th { 2 } else { 1 });
+    // thorough: every single negative entry, and every pair over the first nine kinds
+    let tns = if th {
+        let mut v = lists(&tn_e, 1);
+        v.extend(lists(&tn_e[..tn_e.len().min(9)], 2).into_iter().filter(|l| l.len() == 2));
+        v
+    } else {
+        lists(&tn_e, 1)
+    };
     let base_y: Y = serde_yaml::from_str(&yaml).unwrap();
     let sws: Vec<u8> = if th { (0..16).collect() } else { vec![0, 15, 2, 9] };
     for tp in &tps {
@@ -459,7 +466,7 @@ pub fn run(tier: Tier) -> i32 {
     rep.stats.sample(json!({"history":["validate","examples:=positive-fails","validate"],"expected":"as a fresh rule with the failing example: Err(Validation) naming it"}));
     rep.stats.sample(json!({"true_positives":["matching","string"],"true_negatives":["non-matching"],"expected":"Err(Validation) naming the string entry only"}));
     rep.stats.sample(json!({"true_positives":[],"true_negatives":["matching"],"expected":"Err(Validation) naming the matching negative"}));
-    rep.rule = "rules: a strided slice of the shared universe (every family); x switch sets (thorough: all 16) x every pair of example lists (true_positives of length 0-2, true_negatives of length 0-1, thorough 0-2) over {a matching document, a non-matching one, {}, and the malformed entries string / int / null / sequence / bool}; every example carries a unique marker. Oracle: validate() is Ok(true) iff every positive matches and no negative does by matches(); otherwise an error of kind Validation whose text contains the marker of every failing example and of no passing one; a malformed entry is refused at load or reported by validate(), never a panic. Histories: every sequence of up to D operations from {validate, set the example lists to one of five pairs, optimise, clone, replace the detection by its own / by a never-matching one} on one rule value; after each sequence validate() must answer exactly as a freshly loaded rule carrying the same public fields. non-trivial = the rule has both a matching and a non-matching document".into();
+    rep.rule = "rules: a strided slice of the shared universe (every family); x switch sets (thorough: all 16) x every pair of example lists (true_positives of length 0-2, true_negatives of length 0-1; thorough also every pair over the first nine entry kinds) over {a matching document, a non-matching one, {}, and the malformed entries string / int / null / sequence / bool}; every example carries a unique marker. Oracle: validate() is Ok(true) iff every positive matches and no negative does by matches(); otherwise an error of kind Validation whose text contains the marker of every failing example and of no passing one; a malformed entry is refused at load or reported by validate(), never a panic. Histories: every sequence of up to D operations from {validate, set the example lists to one of five pairs, optimise, clone, replace the detection by its own / by a never-matching one} on one rule value; after each sequence validate() must answer exactly as a freshly loaded rule carrying the same public fields. non-trivial = the rule has both a matching and a non-matching document".into();
     rep.assumptions = vec!["examples are identified in the error text by a unique field value (format of the message is not pinned)".into()];
     rep.finish()
 }
